@@ -16,7 +16,11 @@ CONSTANTS VerifyOnly,   \* node disconnects after chain verification
           MaxMsgs       \* bound on inbound messages (exhaustive cfg)
 
 \* inbound message classes
-HeaderMsgs == {"hdrBSV", "hdrBCH", "hdrUnknown", "hdrEmpty", "hdrBSVSecond", "hdrGood", "hdrBad", "hdrTxCount"}
+HeaderMsgs == {"hdrBSV", "hdrBCH", "hdrUnknown", "hdrEmpty", "hdrBSVSecond", "hdrGood", "hdrBad", "hdrTxCount",
+               "hdrBSVShort", "hdrGoodShort"}
+\* the two "Short" classes announce more headers than they deliver: the first header (the required header /
+\* the next header of our chain) arrives, the rest of the declared length never does
+ShortMsgs == {"hdrBSVShort", "hdrGoodShort"}
 Msgs == {"version", "verack", "ping", "pongOK", "pongBad", "protoconf", "reject", "addr", "getaddr",
          "inv", "invBlock", "tx", "block", "blockWanted", "reqblock", "extTx", "extBlock", "extOther", "other"}
         \cup HeaderMsgs
@@ -70,17 +74,22 @@ Recv(m) ==
                  IF ~hsComplete
                  THEN \* "Discarding headers message": the payload is not consumed
                       desync' = TRUE /\ Quiet /\ Same(<<q, ready, verified, closed, deaf, protoconfs>>)
-                 ELSE IF m = "hdrBSV"
-                      THEN Accept /\ Same(<<q, deaf, desync, protoconfs>>)
+                 ELSE IF m \in {"hdrBSV", "hdrBSVShort"}
+                      THEN \* the decision is taken on the first header; a verify-only node stops there and
+                           \* then, any other node goes on to discard the rest of the declared length -
+                           \* which, for the short message, never arrives
+                           /\ Accept /\ deaf' = (m = "hdrBSVShort" /\ ~VerifyOnly)
+                           /\ Same(<<q, desync, protoconfs>>)
                       ELSE Close /\ Quiet /\ Same(<<q, verified, deaf, desync, protoconfs>>)
             ELSE \* handleHeadersTrack (ready)
-                 IF m \in {"hdrBad", "hdrUnknown", "hdrBCH", "hdrBSV", "hdrBSVSecond"}
+                 IF m \in {"hdrBad", "hdrUnknown", "hdrBCH", "hdrBSV", "hdrBSVSecond", "hdrBSVShort"}
                  THEN \* a header that does not connect: ProcessHeader fails, the node stops
                       Close /\ out' = {} /\ sinks' = {"ProcessHeader"} /\ Same(<<q, verified, deaf, desync, protoconfs>>)
                  ELSE IF m = "hdrTxCount"
                  THEN Close /\ Quiet /\ Same(<<q, verified, deaf, desync, protoconfs>>)
                  ELSE /\ sinks' = IF m = "hdrEmpty" THEN {} ELSE {"ProcessHeader"}
-                      /\ out' = {} /\ Same(<<q, ready, verified, closed, deaf, desync, protoconfs>>)
+                      /\ deaf' = (m = "hdrGoodShort")   \* waits for the second header
+                      /\ out' = {} /\ Same(<<q, ready, verified, closed, desync, protoconfs>>)
        [] m = "ping" -> out' = {"pong"} /\ sinks' = {} /\ Same(<<q, ready, verified, closed, deaf, desync, protoconfs>>)
        [] m = "pongOK" -> Quiet /\ Same(<<q, ready, verified, closed, deaf, desync, protoconfs>>)
        [] m = "pongBad" -> IF ready THEN Close /\ Quiet /\ Same(<<q, verified, deaf, desync, protoconfs>>)
@@ -125,16 +134,19 @@ Spec == Init /\ [][Next]_vars
 
 \* ------------------------------------------------------------------ C13
 NoSinkBeforeReady == [][sinks' # {} => ready]_vars
-ReadyNeedsHandshakeAndBSV == [][(~verified /\ verified') => (hsComplete /\ lastIn' = "hdrBSV")]_vars
+ReadyNeedsHandshakeAndBSV == [][(~verified /\ verified') => (hsComplete /\ lastIn' \in {"hdrBSV", "hdrBSVShort"})]_vars
 ReadyImpliesVerified == ready => verified /\ hsComplete
 VerifyOnlyDisconnects == (VerifyOnly /\ verified) => closed /\ ~ready
 NeverReadyWhenVerifyOnly == VerifyOnly => ~ready
 \* ------------------------------------------------------------------ C03 (peer side)
-OnlyBSVVerifies == [][(lastIn' \in HeaderMsgs \ {"hdrBSV"} /\ ~verified) => (~verified' /\ (hsComplete => closed'))]_vars
+OnlyBSVVerifies == [][(lastIn' \in HeaderMsgs \ {"hdrBSV", "hdrBSVShort"} /\ ~verified) => (~verified' /\ (hsComplete => closed'))]_vars
 \* ------------------------------------------------------------------ C14
 \* a verified, connected peer always gets its ping answered, and conformant traffic never leaves the
 \* stream between messages
 PingAnswered == [][(lastIn' = "ping" /\ ready) => "pong" \in out']_vars
-NeverDeafWhileReady == ~(ready /\ deaf)
+\* only a message that stops short of its own declared length leaves the read loop waiting inside a handler
+NeverDeafWhileReady == [][(deaf' /\ ~deaf) => lastIn' \in ShortMsgs]_vars
+\* and a verify-only node does not wait for it: the decision closes the connection
+VerifyOnlyNeverWaits == VerifyOnly => ~deaf
 InSyncWhileReady == ~(ready /\ desync)
 ==============================================================================
